@@ -57,6 +57,8 @@ type EvalCtx struct {
 	atCallSite bool
 	assuming   bool
 	callStates map[string]*State
+	callArgs   map[string][]Binding
+	callRes    map[string][]Binding
 }
 
 type evalErr string
@@ -235,6 +237,8 @@ func (fr *Frame) ctx(st *State, li *loopInfo) *EvalCtx {
 			top = top.parent
 		}
 		ctx.callStates = top.callStates
+		ctx.callArgs = top.callArgs
+		ctx.callRes = top.callRes
 	}
 	if ctx.inst == nil {
 		ctx.inst = leaf("0")
@@ -1094,6 +1098,26 @@ func (ctx *EvalCtx) call(e *CExpr) TV {
 			ctx.fail("at(%s, ...): no such call in this function", e.Args[0].Name)
 		}
 		return ctx.with(stt).eval(e.Args[1])
+	case "res", "arg":
+		// res(callee, i) / arg(callee, i): i-th result / argument (receiver first) of the last call of a callee under
+		// contract in this function. Seen from a caller of the function under contract it is some unknown value.
+		if len(e.Args) != 2 || e.Args[0].Kind != "ident" || e.Args[1].Kind != "int" {
+			ctx.fail("%s(callee, index)", name)
+		}
+		tab := ctx.callRes
+		if name == "arg" {
+			tab = ctx.callArgs
+		}
+		var idx int
+		fmt.Sscanf(e.Args[1].Name, "%d", &idx)
+		if ctx.atCallSite {
+			ctx.fail("%s() cannot be used in a clause assumed at call sites", name)
+		}
+		bs, ok := tab[e.Args[0].Name]
+		if !ok || idx >= len(bs) {
+			ctx.fail("%s(%s, %d): no such call in this function", name, e.Args[0].Name, idx)
+		}
+		return ctx.bindingTV(bs[idx])
 	case "pre":
 		if ctx.pre == nil {
 			ctx.fail("pre() only inside loop invariants")
